@@ -382,6 +382,7 @@ type Summary struct {
 	Samples  []interface{}  `json:"samples"`
 	Unplaced int            `json:"edges_with_unknown_source"`
 	WallS    float64        `json:"wall_s"`
+	Stopped  bool           `json:"stopped_after_25_failures"`
 }
 
 func path(nodes map[string]*node, key string) []*Op {
@@ -500,7 +501,10 @@ func RunEdges(args []string) int {
 				fmt.Fprintf(os.Stderr, "cannot parse edge: %v: %.300s\n", jerr, s)
 				return 2
 			}
-			if !do(&e) {
+			if sum.Failures >= 25 {
+				// enough evidence; do not spend the timeouts of thousands of further edges
+				sum.Stopped = true
+			} else if !do(&e) {
 				pending = append(pending, &e)
 			}
 		} else if len(line) > 0 {
